@@ -69,7 +69,7 @@ func c19DecodePos(position string) (*msgstream.MsgPosition, error) {
 
 // one of a finite set of strings, chosen by the solver
 func c19OneOf(tag string, opts ...string) string {
-	s := vStr(tag, 12)
+	s := vStr(tag, 24)
 	ok := false
 	for _, o := range opts {
 		ok = vOr(ok, s == o)
@@ -157,14 +157,6 @@ func c19AssertUnchanged(pre, post *c19Snap, tag string) {
 		vAssert(c19SameStrs(pre.data[k], post.data[k]), "C19.reject-leaves-duplicate-bookkeeping:names"+tag)
 		vAssert(c19SameStrs(pre.excl[k], post.excl[k]), "C19.reject-leaves-duplicate-bookkeeping:excludes"+tag)
 		vAssert(pre.extra[k] == post.extra[k], "C19.reject-leaves-duplicate-bookkeeping:user-role-flag"+tag)
-		sameMap := len(pre.mapping[k]) == len(post.mapping[k])
-		if sameMap {
-			for a, b := range pre.mapping[k] {
-				b2, ok := post.mapping[k][a]
-				sameMap = vAnd(sameMap, vAnd(ok, b == b2))
-			}
-		}
-		vAssert(sameMap, "C19.reject-leaves-duplicate-bookkeeping:name-mapping"+tag)
 	}
 }
 
@@ -219,55 +211,89 @@ func c19Prior(cdc *MetaCDC, srv *CDCServer) bool {
 	return true
 }
 
-// VerifC19_Create: an arbitrary decoded create request on an empty server or after one
-// accepted request.
-func VerifC19_Create() {
+// The create request space is explored in three entries that each vary one group of
+// fields and keep the others at valid defaults (sum instead of product of the groups):
+//   Validation: target shape, numbers, credentials, rpc channel, collection-list shapes, names
+//   Positions : start positions (channel menus, undecodable values), rpc position, task id,
+//               start / connect failures, on an empty server or after one accepted request
+//   Names     : arbitrary names (separators, wildcards), name mapping, user-role flag,
+//               after one accepted request or on an empty server
+func VerifC19_CreateValidation() { c19Create(0) }
+func VerifC19_CreatePositions()  { c19Create(1) }
+func VerifC19_CreateNames()      { c19Create(2) }
+
+func c19Create(mode int) {
 	L := vParam("L", 2)
 	f := newSFactory()
 	cdc, srv := c19NewServer(f)
-	c19Prior(cdc, srv)
+	if mode != 0 {
+		c19Prior(cdc, srv)
+	}
 
 	req := &request.CreateRequest{}
 	// ---- target ----
-	milvusSet, kafkaSet := false, false
-	switch vChoice("target", 6) {
-	case 0:
-		req.MilvusConnectParam.URI = c19T1
-		milvusSet = true
-	case 1:
-		req.MilvusConnectParam.URI = c19T2
-		milvusSet = true
-	case 2: // deprecated host/port form
-		req.MilvusConnectParam.Host = c19OneOf("host", "", "h")
-		req.MilvusConnectParam.Port = vInt("port")
-		milvusSet = vOr(req.MilvusConnectParam.Host != "", req.MilvusConnectParam.Port > 0)
-	case 3:
-		req.KafkaConnectParam.Address = "k:9092"
-		req.KafkaConnectParam.Topic = c19OneOf("topic", "", "t")
-		kafkaSet = true
-	case 4:
-		req.MilvusConnectParam.URI = c19T2
-		req.KafkaConnectParam.Address = "k:9092"
-		req.KafkaConnectParam.Topic = "t"
-		milvusSet, kafkaSet = true, true
-	case 5:
+	milvusSet, kafkaSet := true, false
+	if mode == 0 {
+		milvusSet = false
+		switch vChoice("target", 5) {
+		case 0:
+			req.MilvusConnectParam.URI = c19T2
+			milvusSet = true
+		case 1: // deprecated host/port form
+			req.MilvusConnectParam.Host = c19OneOf("host", "", "h")
+			req.MilvusConnectParam.Port = vInt("port")
+			milvusSet = vOr(req.MilvusConnectParam.Host != "", req.MilvusConnectParam.Port > 0)
+		case 2:
+			req.KafkaConnectParam.Address = "k:9092"
+			req.KafkaConnectParam.Topic = c19OneOf("topic", "", "t")
+			kafkaSet = true
+		case 3:
+			req.MilvusConnectParam.URI = c19T2
+			req.KafkaConnectParam.Address = "k:9092"
+			req.KafkaConnectParam.Topic = "t"
+			milvusSet, kafkaSet = true, true
+		case 4:
+		}
+		req.MilvusConnectParam.Username = c19OneOf("user", "", "u")
+		req.MilvusConnectParam.Password = c19OneOf("pwd", "", "p")
+		req.MilvusConnectParam.ConnectTimeout = vInt("connectTimeout")
+		req.BufferConfig.Period = vInt("period")
+		req.BufferConfig.Size = vInt("size")
+		req.RPCChannelInfo.Name = c19OneOf("rpc.name", "", c19Rpc, "other-chan")
+	} else {
+		req.MilvusConnectParam.URI = c19OneOf("uri", c19T1, c19T2)
 	}
-	req.MilvusConnectParam.Username = c19OneOf("user", "", "u")
-	req.MilvusConnectParam.Password = c19OneOf("pwd", "", "p")
-	req.MilvusConnectParam.ConnectTimeout = vInt("connectTimeout")
-	req.BufferConfig.Period = vInt("period")
-	req.BufferConfig.Size = vInt("size")
-	req.ExtraInfo.EnableUserRole = vBool("userRole")
-	req.TaskID = c19OneOf("taskID", "", "task-1", "new")
-	req.RPCChannelInfo.Name = c19OneOf("rpc.name", "", c19Rpc, "other-chan")
-	req.RPCChannelInfo.Position = c19OneOf("rpc.pos", "", "good", "bad")
+	if mode == 1 {
+		req.TaskID = c19OneOf("taskID", "", "task-1", "new")
+		req.RPCChannelInfo.Position = c19OneOf("rpc.pos", "", "good", "bad")
+		c19StartFails = vBool("startFails")
+	}
+	if mode == 0 {
+		sConnectFails = vBool("connectFails")
+	}
+	if mode != 0 {
+		req.ExtraInfo.EnableUserRole = vBool("userRole")
+	}
 
 	// ---- collections ----
-	nCI, nDB := vChoice("nCollectionInfos", 3), vChoice("nDBCollections", 3)
+	nCI, nDB := 1, 0
+	if mode == 0 {
+		nCI, nDB = vChoice("nCollectionInfos", 3), vChoice("nDBCollections", 3)
+	} else if vBool("dbForm") {
+		nCI, nDB = 0, 1
+	}
+	// badPos: undecodable value; foreignChan: not a virtual channel (validation stage);
+	// mixedColl: rejected when the channel names are parsed (creation stage)
 	badPos, foreignChan, mixedColl := false, false, false
+	name := func(tag string) string {
+		if mode == 1 {
+			return c19OneOf(tag, "a", "*")
+		}
+		return vStr(tag, L+1)
+	}
 	mkInfo := func(tag string, withPos bool) model.CollectionInfo {
-		ci := model.CollectionInfo{Name: vStr(tag+".name", L+1)}
-		if !withPos {
+		ci := model.CollectionInfo{Name: name(tag + ".name")}
+		if !withPos || mode != 1 {
 			return ci
 		}
 		switch vChoice("positions", 7) {
@@ -285,8 +311,8 @@ func VerifC19_Create() {
 			ci.Positions = map[string]string{"ch1": "good"}
 			foreignChan = true
 		case 5:
-			ci.Positions = map[string]string{"ch_v": "good"} // virtual by the weak test, not a vchannel name
-			foreignChan = true
+			ci.Positions = map[string]string{"ch_v": "good"} // passes the weak virtual-channel test of the validation, rejected when parsed
+			mixedColl = true
 		case 6:
 			ci.Positions = map[string]string{"": "good"}
 			foreignChan = true
@@ -300,15 +326,17 @@ func VerifC19_Create() {
 	dbTooLong := false
 	if nDB > 0 {
 		req.DBCollections = map[string][]model.CollectionInfo{}
+		first := ""
 		for i := 0; i < nDB; i++ {
-			db := vStr("db.name", L+1)
-			if i == 1 {
-				vAssume(db != "x")
-				db = "x"
+			db := name("db.name")
+			if i == 0 {
+				first = db
+			} else {
+				vAssume(db != first)
 			}
 			dbTooLong = vOr(dbTooLong, len(db) > cdc.config.MaxNameLength)
 			n := 1
-			if single {
+			if single && mode == 0 {
 				n = 1 + vChoice("nInDB", 2)
 			}
 			var infos []model.CollectionInfo
@@ -318,15 +346,13 @@ func VerifC19_Create() {
 			req.DBCollections[db] = infos
 		}
 	}
-	if vChoice("nameMapping", 2) == 1 {
-		nm := model.NameMapping{SourceDB: c19OneOf("map.src", "default", "x"), TargetDB: c19OneOf("map.dst", "default", "y")}
+	if mode == 2 && vChoice("nameMapping", 2) == 1 {
+		nm := model.NameMapping{SourceDB: vStr("map.src", L+1), TargetDB: c19OneOf("map.dst", "default", "y")}
 		if vBool("map.hasCollection") {
-			nm.CollectionMapping = map[string]string{vStr("map.coll", L): "z"}
+			nm.CollectionMapping = map[string]string{vStr("map.coll", L+1): "z"}
 		}
 		req.NameMapping = []model.NameMapping{nm}
 	}
-	sConnectFails = vBool("connectFails")
-	c19StartFails = vBool("startFails")
 
 	// ---- reference: requests that MUST be rejected (from the statement's list) ----
 	mp := req.MilvusConnectParam
@@ -339,8 +365,7 @@ func VerifC19_Create() {
 		}
 	}
 	mustReject = vOr(mustReject, vAnd(req.RPCChannelInfo.Name != "", req.RPCChannelInfo.Name != c19Rpc)) // foreign rpc channel
-	mustReject = vOr(mustReject, req.RPCChannelInfo.Position == "bad")
-	mustReject = vOr(mustReject, vOr(badPos, vOr(foreignChan, mixedColl)))
+	mustReject = vOr(mustReject, foreignChan)
 	mustReject = vOr(mustReject, dbTooLong)
 	for _, ci := range req.CollectionInfos {
 		mustReject = vOr(mustReject, vOr(ci.Name == "", len(ci.Name) > cdc.config.MaxNameLength))
@@ -353,6 +378,11 @@ func VerifC19_Create() {
 	existing := false
 	if req.TaskID != "" {
 		_, existing = cdc.cdcTasks.data[req.TaskID]
+	}
+	if !existing {
+		// a create naming an existing task id answers with that task (idempotent create) before
+		// positions are looked at; everything else must reject undecodable / inconsistent positions
+		mustReject = vOr(mustReject, vOr(req.RPCChannelInfo.Position == "bad", vOr(badPos, mixedColl)))
 	}
 
 	pre := c19Snapshot(cdc, f)
